@@ -312,6 +312,32 @@ def gotest_ok(ctx, pkg, run, **kw):
     return out
 
 
+
+def tlc_trace_chunks(ctx, module, cfg, tracefile, recs, chunk=40000, par=6, timeout=1800, java_opts=("-Xmx6g",)):
+    """Trace validation of many records: splits recs into chunks, gives each chunk its own copy of the Trace
+    module (module name and trace file name replaced) and runs up to `par` TLC processes at a time.
+    Returns [(offset, TlcResult)]: record l of a result is recs[offset + l - 1]."""
+    import concurrent.futures as cf
+    d = ctx.specdir()
+    with open(os.path.join(d, module + ".tla")) as fh:
+        src = fh.read()
+    if tracefile not in src:
+        raise Infra("%s.tla does not read %s" % (module, tracefile))
+    jobs = []
+    for n, i in enumerate(range(0, len(recs), chunk)):
+        mod = "%s_k%d" % (module, n)
+        tf = tracefile.replace(".ndjson", "_k%d.ndjson" % n)
+        write_ndjson(os.path.join(d, tf), recs[i:i + chunk])
+        with open(os.path.join(d, mod + ".tla"), "w") as fh:
+            fh.write(src.replace("MODULE " + module, "MODULE " + mod).replace(tracefile, tf))
+        jobs.append((i, mod))
+
+    def one(job):
+        off, mod = job
+        return off, tlc(ctx, mod, cfg, workers=1, timeout=timeout, java_opts=list(java_opts))
+    with cf.ThreadPoolExecutor(max_workers=par) as ex:
+        return list(ex.map(one, jobs))
+
 # --------------------------------------------------------------------------- ndjson
 
 def read_ndjson(path):
@@ -406,6 +432,9 @@ def finish(ctx):
         "violations": len(real),
     }
     evdir = os.path.join(VERIF, "evidence")
+    if not ctx.prop.startswith("C"):
+        # extension modules (X01 ...: behaviour beyond the listed properties) keep their evidence apart
+        evdir = os.path.join(VERIF, "evidence_ext")
     if os.path.realpath(REPO) != "/repo":
         # runs against a scratch worktree (mutant validation) never overwrite the real evidence
         evdir = os.path.join(VERIF, ".work", "evidence-alt")
